@@ -20,11 +20,17 @@ PROP = 'C10'
 def eval_program(arg) -> dict:
     seed, stream, scratch, tier = arg
     common.import_dznpy()
+    # one program per run exposes a notification-only provides port (out-events only) as MTS
+    notify_only = stream % 9 == 5
+
     def has_user_bound_events(info):
         # the forced assignments below are only worth something if the ports they address have
         # events the user binds: out-events on a provides port, in-events on a requires port
         provides_out = any(info['ports'][p]['n_out'] for p in info['provides'])
         requires_in = any(info['ports'][p]['n_in'] for p in info['requires'])
+        if notify_only:
+            return any(info['ports'][p]['n_out'] and not info['ports'][p]['n_in']
+                       for p in info['provides'])
         return requires_in if stream % 2 == 0 else (provides_out and requires_in)
     prog, case, rng = progrun.make_program(
         PROP, seed, stream, scratch, stream % 3 == 1,
@@ -33,6 +39,8 @@ def eval_program(arg) -> dict:
     # cover every semantics x direction combination in every run, whatever the random draw
     if stream % 2 == 0:
         prog.enc['requires'] = {'sts': 'NONE', 'mts': 'ALL'}
+    elif notify_only:
+        prog.enc['provides'] = {'sts': 'NONE', 'mts': 'ALL'}
     elif not prog.enc.get('multiclient'):
         prog.enc['provides'] = {'sts': 'ALL', 'mts': 'NONE'}
         prog.enc['requires'] = {'sts': 'REMAINING', 'mts': 'NONE'}
@@ -43,6 +51,8 @@ def eval_program(arg) -> dict:
         return progrun.finish_program(prog, out, case)
     mci = scripts.mc_info(prog)
     cnt = out['counts']
+    if notify_only:
+        cnt['programs_with_a_notification_only_mts_provides_port'] = 1
 
     def play(lines, tag, expect_throw, what):
         script = '\n'.join(lines) + '\n'
@@ -142,6 +152,7 @@ def main(tier: str) -> int:
                 'component_side_bindings_omitted', 'omitted_on_STS_port', 'omitted_on_MTS_port',
                 'omitted_on_multiclient_port', 'late_registrations',
                 'late_registration_after_0_clients',
+                'programs_with_a_notification_only_mts_provides_port',
                 'omitted_on_MTS_requires_port', 'omitted_on_MTS_provides_port',
                 'omitted_on_STS_requires_port', 'omitted_on_STS_provides_port')
     scratch = run.scratch()
